@@ -2,8 +2,10 @@ import Lemmas.Restore
 /-!
   Lemmas/Footprint.lean — the state-level footprint of `Rollback` over a `Sim`: for ANY world
   (no transaction invariant) and ANY fault plan, `rollback` changes the base view only at keys in
-  the footprint of the tracked map and the backup view only at tracked keys.  Pure frame
-  reasoning: only the unconditional `*_frame` / `pure_*` laws of the contract are used.
+  the footprint of the tracked map and the backup view only at tracked keys.  Frame reasoning:
+  the unconditional `*_frame` / `pure_*` laws of the contract, plus — for the one decision in
+  `restoreFile` that depends on what the backup holds (`Remove` when the backup copy is a regular
+  file, `RemoveAll` otherwise) — `open_handle` and `hstat_some`.
 -/
 namespace BFS
 open BackupFS
@@ -299,8 +301,72 @@ theorem sat_restoreDirAct_frame {infos : List (Path × Option Info)} {k : Key} {
       obtain ⟨g, o, f⟩ := S.remove_frame h1.1.good hk hne h
       exact ⟨g, o, fun j hj => f j hj⟩)).mono (fun _ _ h => ⟨h1.1.step h eq_imp_prefix, h1.2.trans h.soft⟩)
 
-/-- restoring a file touches at most the keys at or below its key -/
-theorem sat_restoreFile_chg {k : Key} {bi : Info} {w : World} (hg : S.G w.fs) (hk : PKey k) (hne : k ≠ []) :
+/-- the keys `restoreFile` for key `k` may change in the base when the backup view is `vb`: `k`
+itself (`Remove` of whatever took the file's place, `OpenFile`, writes, `Chown`, `Chmod`, `Chtimes`),
+and the keys below `k` ONLY when the backup copy at `k` is not a regular file (then, and only then,
+the code calls `RemoveAll`) -/
+def FileReach (vb : View) (k j : Key) : Prop := j = k ∨ (¬ vb.isFileAt k ∧ k <+: j)
+
+/-- the tail of `restoreFile`: the deferred `Close`, then the result of the body -/
+theorem sat_restoreFile_tail {K : Key → Prop} {w0 w2 : World} {f : WHandle} {r : Except Err Unit}
+    (h2 : S.Chg .base K w0 w2) :
+    Sat (do
+      let _ ← BFS.attempt (hClose f)
+      match r with
+      | .ok () => pure ()
+      | .error e => M.throw e : M Unit) w2 (fun w' _ => S.Chg .base K w0 w') := by
+  apply Sat.seq (P := S.Chg .base K w0)
+    (Sat.attempt_any ((sat_hClose (wh := f) (w := w2)).mono (fun _ _ h => h2.same_right h.1))) (fun _ h => h)
+  intro _ w3 h3
+  cases r with
+  | ok u => exact Sat.pure h3
+  | error e => exact Sat.throw h3
+
+/-- the backup copy is a regular file: `restoreFile` makes room with `Remove`, never `RemoveAll`,
+and touches the key itself only — any fault plan, whatever it returns -/
+theorem sat_restoreFile_chg_file {k : Key} {bi : Info} {w : World} (hg : S.G w.fs) (hk : PKey k) (hne : k ≠ [])
+    (hbf : (S.view .backup w.fs).isFileAt k) :
+    Sat (restoreFile cfg (kp k) bi) w (fun w' _ => S.Chg .base (· = k) w w') := by
+  obtain ⟨c, mt, hv⟩ := hbf
+  unfold restoreFile
+  apply Sat.bind
+  apply (sat_open_ro (S := S) (s := .backup) hg hk).mono
+  intro w1 r1 ⟨hs1, hwh, _⟩
+  have h1 : S.Chg .base (· = k) w w1 := Sim.Chg.of_same hg hs1
+  cases r1 with
+  | error e => exact h1
+  | ok f =>
+    obtain ⟨hside, hH, _⟩ := hwh f rfl
+    simp only
+    apply Sat.seq (P := S.Chg .base (· = k) w) (Sat.attempt_any _) (fun _ h => h)
+    · intro r w2 h2
+      exact sat_restoreFile_tail h2
+    · apply Sat.bind
+      apply (sat_hStat (S := S) (wh := f) (k := k) (n := .file c mt) (hs1.fs ▸ hg) (by rw [hside]; exact hH)
+        (by rw [hside, hs1.fs]; exact hv)).mono
+      intro w2 r2 ⟨hs2, _, hfi⟩
+      have h2 : S.Chg .base (· = k) w w2 := h1.same_right hs2
+      cases r2 with
+      | error e => exact h2
+      | ok fi =>
+        have hfireg : fi.isRegular = true := by
+          have := (hfi fi rfl).1
+          simp [Info.isRegular, this, Node.kind]
+        simp only
+        apply Sat.seq (P := S.Chg .base (· = k) w)
+          ((sat_lexists_same S).mono (fun _ _ h => h2.same_right h)) (fun _ h => h)
+        intro baseFi w3 h3
+        simp only [hfireg, Bool.not_true, Bool.false_eq_true, if_false]
+        apply Sat.seq (P := S.Chg .base (· = k) w) _ (fun _ h => h)
+        · intro _ w4 h4
+          exact (sat_copyFile_chg h4.good hk).mono (fun _ _ h => h4.trans h)
+        · apply Sat.whenM_any _ h3
+          exact sat_primUnit_step h3 (fun _ h => h) (fun m' r h => by
+            obtain ⟨g, o, f'⟩ := S.remove_frame h3.good hk hne h
+            exact ⟨g, o, fun j hj => f' j hj⟩)
+
+/-- whatever the backup holds at `k`: `restoreFile` touches at most the keys at or below `k` -/
+theorem sat_restoreFile_chg_below {k : Key} {bi : Info} {w : World} (hg : S.G w.fs) (hk : PKey k) (hne : k ≠ []) :
     Sat (restoreFile cfg (kp k) bi) w (fun w' _ => S.Chg .base (k <+: ·) w w') := by
   unfold restoreFile
   apply Sat.seq (P := S.Chg .base (k <+: ·) w)
@@ -308,29 +374,41 @@ theorem sat_restoreFile_chg {k : Key} {bi : Info} {w : World} (hg : S.G w.fs) (h
   intro f w1 h1
   apply Sat.seq (P := S.Chg .base (k <+: ·) w) (Sat.attempt_any _) (fun _ h => h)
   · intro r w2 h2
-    apply Sat.seq (P := S.Chg .base (k <+: ·) w)
-      (Sat.attempt_any ((sat_hClose (wh := f) (w := w2)).mono (fun _ _ h => h2.same_right h.1))) (fun _ h => h)
-    intro _ w3 h3
-    cases r with
-    | ok u => exact Sat.pure h3
-    | error e => exact Sat.throw h3
+    exact sat_restoreFile_tail h2
   · apply Sat.seq (P := S.Chg .base (k <+: ·) w)
       ((sat_hStat_same (wh := f)).mono (fun _ _ h => h1.same_right h)) (fun _ h => h)
     intro fi w2 h2
     apply Sat.seq (P := S.Chg .base (k <+: ·) w)
       ((sat_lexists_same S).mono (fun _ _ h => h2.same_right h)) (fun _ h => h)
     intro baseFi w3 h3
-    apply Sat.seq (P := S.Chg .base (k <+: ·) w) _ (fun _ h => h)
-    · intro _ w4 h4
-      exact (sat_copyFile_chg h4.good hk).mono (fun _ _ h => h4.step h eq_imp_below)
-    · apply Sat.whenM_any _ h3
+    have hcopy : ∀ w4, S.Chg .base (k <+: ·) w w4 →
+        Sat (copyFile cfg .base (kp k) bi f) w4 (fun w' _ => S.Chg .base (k <+: ·) w w') :=
+      fun w4 h4 => (sat_copyFile_chg h4.good hk).mono (fun _ _ h => h4.step h eq_imp_below)
+    apply Sat.ite
+    · intro _
+      apply Sat.seq (P := S.Chg .base (k <+: ·) w) _ (fun _ h => h) (fun _ w4 h4 => hcopy w4 h4)
       exact sat_primUnit_step h3 (fun _ h => h) (fun m' r h => by
-        obtain ⟨g, o, f⟩ := S.removeAll_frame h3.good hk hne h
-        exact ⟨g, o, fun j hj => f j hj⟩)
+        obtain ⟨g, o, f'⟩ := S.removeAll_frame h3.good hk hne h
+        exact ⟨g, o, fun j hj => f' j hj⟩)
+    · intro _
+      apply Sat.seq (P := S.Chg .base (k <+: ·) w) _ (fun _ h => h) (fun _ w4 h4 => hcopy w4 h4)
+      apply Sat.whenM_any _ h3
+      exact sat_primUnit_step h3 eq_imp_below (fun m' r h => by
+        obtain ⟨g, o, f'⟩ := S.remove_frame h3.good hk hne h
+        exact ⟨g, o, fun j hj => f' j hj⟩)
+
+/-- restoring a file touches its key, and the keys below it only when the backup copy found there
+is not a regular file (`FileReach`) -/
+theorem sat_restoreFile_chg {k : Key} {bi : Info} {w : World} (hg : S.G w.fs) (hk : PKey k) (hne : k ≠ []) :
+    Sat (restoreFile cfg (kp k) bi) w (fun w' _ => S.Chg .base (FileReach (S.view .backup w.fs) k) w w') := by
+  by_cases hbf : (S.view .backup w.fs).isFileAt k
+  · exact (sat_restoreFile_chg_file hg hk hne hbf).mono (fun _ _ h => h.mono (fun j e => Or.inl e))
+  · exact (sat_restoreFile_chg_below hg hk hne).mono (fun _ _ h => h.mono (fun j hj => Or.inr ⟨hbf, hj⟩))
 
 theorem sat_restoreFileAct_chg {infos : List (Path × Option Info)} {k : Key} {w : World}
     (hg : S.G w.fs) (hk : PKey k) (hne : k ≠ []) :
-    Sat (restoreFileAct cfg infos (kp k)) w (fun w' _ => S.Chg .base (k <+: ·) w w') := by
+    Sat (restoreFileAct cfg infos (kp k)) w
+      (fun w' _ => S.Chg .base (FileReach (S.view .backup w.fs) k) w w') := by
   unfold restoreFileAct
   cases infoFor infos (kp k) with
   | none => exact Sat.pure (Sim.Chg.refl hg)
@@ -378,6 +456,11 @@ theorem Sim.Foot.trans {a b c : World} (h1 : S.Foot F Ff K a b) (h2 : S.Foot F F
     obtain ⟨c', mt, h⟩ := hf
     exact ⟨c', mt, by rw [e1, h]⟩
   rw [h2.files j hj hf', e1]
+
+theorem Sim.Foot.mono {F' Ff' K' : Key → Prop} {w w' : World} (h : S.Foot F Ff K w w')
+    (hF : ∀ j, F j → F' j) (hFf : ∀ j, Ff j → Ff' j) (hK : ∀ j, K j → K' j) : S.Foot F' Ff' K' w w' :=
+  ⟨h.good, fun j hj => h.base j (fun hx => hj (hF j hx)), fun j hj hf => h.files j (fun hx => hj (hFf j hx)) hf,
+    fun j hj => h.backup j (fun hx => hj (hK j hx))⟩
 
 /-- a base-side step bounded by `X`, with `X` inside both footprints -/
 theorem Sim.Foot.of_base {X : Key → Prop} {w w' : World} (h : S.Chg .base X w w')
@@ -479,34 +562,78 @@ theorem sat_classify_any (S : Sim cfg) {infos : List (Path × Option Info)} :
 def TrackedKey (infos : List (Path × Option Info)) (k : Key) (oi : Option Info) : Prop :=
   PKey k ∧ k ≠ [] ∧ (kp k, oi) ∈ infos
 
-/-- what one tracked entry `(kp k, oi)` lets Rollback change in the base: `k` itself; the keys
-below `k` if `k` is tracked as a regular file; the prefixes of `k` if it is tracked as a directory -/
-def Touches (k : Key) (oi : Option Info) (j : Key) : Prop :=
-  j = k ∨ (∃ i, oi = some i ∧ i.kind = .file ∧ k <+: j) ∨ (∃ i, oi = some i ∧ i.kind = .dir ∧ j <+: k)
+/-- what one tracked entry `(kp k, oi)` lets Rollback change in the base, the backup view being `vb`
+when Rollback starts: `k` itself; the prefixes of `k` if it is tracked as a directory; and the keys
+below `k` in ONE situation only — `k` is tracked as a regular file and the backup does not hold a
+regular file at `k` (the backup copy was tampered with: `restoreFile` then finds a backup entry that
+is not a regular file and calls `RemoveAll`).  When the backup copy is a regular file — always, under
+the transaction invariant — whatever took the file's place is taken away with `Remove`, and nothing
+below `k` is touched. -/
+def Touches (vb : View) (k : Key) (oi : Option Info) (j : Key) : Prop :=
+  j = k ∨ (∃ i, oi = some i ∧ i.kind = .file ∧ ¬ vb.isFileAt k ∧ k <+: j) ∨
+    (∃ i, oi = some i ∧ i.kind = .dir ∧ j <+: k)
 
-/-- as `Touches`, for regular files: `k` itself and the keys below a `k` tracked as a regular file -/
-def TouchesFile (k : Key) (oi : Option Info) (j : Key) : Prop :=
-  j = k ∨ (∃ i, oi = some i ∧ i.kind = .file ∧ k <+: j)
+/-- as `Touches`, for regular files: `k` itself, and the keys below a `k` tracked as a regular file
+whose backup copy is not a regular file -/
+def TouchesFile (vb : View) (k : Key) (oi : Option Info) (j : Key) : Prop :=
+  j = k ∨ (∃ i, oi = some i ∧ i.kind = .file ∧ ¬ vb.isFileAt k ∧ k <+: j)
 
 /-- base keys Rollback may change: a tracked key itself (`Remove`, `Chmod`, `Chown`, `Chtimes`,
-`OpenFile`, writes); the keys below a key tracked as a regular file (the `RemoveAll` that makes
-room when something else took the file's place); the ancestors of a key tracked as a directory
-(`MkdirAll` may have to recreate them) -/
-def BaseFoot (infos : List (Path × Option Info)) (j : Key) : Prop :=
-  ∃ k oi, TrackedKey infos k oi ∧ Touches k oi j
+`OpenFile`, writes); the ancestors of a key tracked as a directory (`MkdirAll` may have to recreate
+them); the keys below a key tracked as a regular file whose backup copy is not a regular file (the
+one `RemoveAll` left in `restoreFile`) -/
+def BaseFoot (vb : View) (infos : List (Path × Option Info)) (j : Key) : Prop :=
+  ∃ k oi, TrackedKey infos k oi ∧ Touches vb k oi j
 
 /-- base keys at which Rollback may change a *regular file*: as `BaseFoot`, without the ancestors
 of tracked directories (`MkdirAll` never alters a regular file) -/
-def FileFoot (infos : List (Path × Option Info)) (j : Key) : Prop :=
-  ∃ k oi, TrackedKey infos k oi ∧ TouchesFile k oi j
+def FileFoot (vb : View) (infos : List (Path × Option Info)) (j : Key) : Prop :=
+  ∃ k oi, TrackedKey infos k oi ∧ TouchesFile vb k oi j
+
+/-- the footprint when every backup copy of a tracked regular file is a regular file: tracked keys
+and the ancestors of keys tracked as directories -/
+def NamedFoot (infos : List (Path × Option Info)) (j : Key) : Prop :=
+  ∃ k oi, TrackedKey infos k oi ∧ (j = k ∨ ∃ i, oi = some i ∧ i.kind = .dir ∧ j <+: k)
+
+/-- every key tracked as a regular file has a regular file as its backup copy -/
+def CopiesIntact (vb : View) (infos : List (Path × Option Info)) : Prop :=
+  ∀ k i, TrackedKey infos k (some i) → i.kind = .file → vb.isFileAt k
+
+theorem BaseFoot.named {vb : View} {infos : List (Path × Option Info)} (hc : CopiesIntact vb infos) {j : Key}
+    (h : BaseFoot vb infos j) : NamedFoot infos j := by
+  obtain ⟨k, oi, ht, h | ⟨i, rfl, hkind, hnf, _⟩ | h⟩ := h
+  · exact ⟨k, oi, ht, Or.inl h⟩
+  · exact absurd (hc k i ht hkind) hnf
+  · exact ⟨k, oi, ht, Or.inr h⟩
+
+theorem FileFoot.tracked {vb : View} {infos : List (Path × Option Info)} (hc : CopiesIntact vb infos) {j : Key}
+    (h : FileFoot vb infos j) : ∃ oi, TrackedKey infos j oi := by
+  obtain ⟨k, oi, ht, rfl | ⟨i, rfl, hkind, hnf, _⟩⟩ := h
+  · exact ⟨oi, ht⟩
+  · exact absurd (hc k i ht hkind) hnf
 
 /-- backup keys Rollback may change: the keys tracked with an original (`Remove` of that key) -/
 def BackupFoot (infos : List (Path × Option Info)) (j : Key) : Prop := ∃ i, TrackedKey infos j (some i)
 
-theorem FileFoot.base {infos : List (Path × Option Info)} {j : Key} (h : FileFoot infos j) : BaseFoot infos j := by
+theorem FileFoot.base {vb : View} {infos : List (Path × Option Info)} {j : Key} (h : FileFoot vb infos j) :
+    BaseFoot vb infos j := by
   obtain ⟨k, oi, ht, h | h⟩ := h
   · exact ⟨k, oi, ht, Or.inl h⟩
   · exact ⟨k, oi, ht, Or.inr (Or.inl h)⟩
+
+/-- a `restoreFileAct` step for a key tracked as a regular file, inside the footprint computed from
+the backup view `vb` the step finds -/
+theorem FileReach.touches {vb : View} {k j : Key} {i : Info} (hkind : i.kind = .file) (h : FileReach vb k j) :
+    TouchesFile vb k (some i) j := by
+  rcases h with e | ⟨hnf, hpre⟩
+  · exact Or.inl e
+  · exact Or.inr ⟨i, rfl, hkind, hnf, hpre⟩
+
+theorem TouchesFile.touches {vb : View} {k j : Key} {oi : Option Info} (h : TouchesFile vb k oi j) :
+    Touches vb k oi j := by
+  rcases h with e | h
+  · exact Or.inl e
+  · exact Or.inr (Or.inl h)
 
 /-- **Rollback stays within the footprint of the tracked map** — any world whose disk is
 well-formed (no transaction invariant: both trees may have been modified arbitrarily by other
@@ -516,7 +643,8 @@ theorem sat_rollback_foot {w : World} (hg : S.G w.fs)
     (hroot : (kp [], none) ∉ w.infos)
     (hnolink : ∀ p i, (p, some i) ∈ w.infos → i.kind ≠ .link) :
     Sat (rollback cfg) w (fun w' _ =>
-      S.Foot (BaseFoot w.infos) (FileFoot w.infos) (BackupFoot w.infos) w w') := by
+      S.Foot (BaseFoot (S.view .backup w.fs) w.infos) (FileFoot (S.view .backup w.fs) w.infos)
+        (BackupFoot w.infos) w w') := by
   -- every planned path is the path of a tracked non-root key
   have hsome : ∀ {p : Path} {i : Info}, p ≠ rootP → (p, some i) ∈ w.infos → ∃ k, p = kp k ∧ TrackedKey w.infos k (some i) := by
     intro p i hp hm
@@ -526,6 +654,12 @@ theorem sat_rollback_foot {w : World} (hg : S.G w.fs)
     intro p hm
     obtain ⟨k, hk, rfl⟩ := hkeys p _ hm
     exact ⟨k, rfl, hk, fun e => hroot (e ▸ hm), hm⟩
+  -- the restore loops never touch the backup; the clean-up loops never touch the base
+  let PR : World → Prop := S.Foot (BaseFoot (S.view .backup w.fs) w.infos) (FileFoot (S.view .backup w.fs) w.infos)
+    (fun _ => False) w
+  let PC : World → Prop := S.Foot (BaseFoot (S.view .backup w.fs) w.infos) (FileFoot (S.view .backup w.fs) w.infos)
+    (BackupFoot w.infos) w
+  have hPC : ∀ w1, PR w1 → PC w1 := fun w1 h => h.mono (fun _ h => h) (fun _ h => h) (fun _ h => h.elim)
   unfold rollback
   apply Sat.bind
   apply Sat.getW
@@ -533,25 +667,25 @@ theorem sat_rollback_foot {w : World} (hg : S.G w.fs)
   apply Sat.bind
   apply (sat_classify_any S (infos := w.infos) w.infos {} w w (fun _ h => h) (SameFS.refl w) (PlanOK.empty _)).mono
   intro w1 r ⟨hs1, hplan⟩
-  have h1 : S.Foot (BaseFoot w.infos) (FileFoot w.infos) (BackupFoot w.infos) w w1 := Sim.Foot.of_same hg hs1
+  have h1 : PR w1 := Sim.Foot.of_same hg hs1
   cases r with
-  | error e => exact h1
+  | error e => exact hPC w1 h1
   | ok pl =>
     have hpl := hplan pl rfl
     simp only
     -- created entries are removed
-    apply Sat.seq (P := S.Foot (BaseFoot w.infos) (FileFoot w.infos) (BackupFoot w.infos) w) _ (fun _ h => h)
+    apply Sat.seq (P := PR) _ hPC
     rotate_left
-    · apply sat_forEach_any (P := S.Foot (BaseFoot w.infos) (FileFoot w.infos) (BackupFoot w.infos) w) _ w1 h1
+    · apply sat_forEach_any (P := PR) _ w1 h1
       intro x hx w' h'
       obtain ⟨k, rfl, ht⟩ := hnone (hpl.rem x ((sortBy_perm _ _).mem_iff.mp hx))
       exact (sat_removeBaseAct_chg h'.good ht.1 ht.2.1).mono (fun _ _ hc => h'.trans
         (Sim.Foot.of_base hc (fun j e => ⟨k, none, ht, Or.inl e⟩) (fun j e => ⟨k, none, ht, Or.inl e⟩)))
     intro e1 w2 h2
     -- directories are restored
-    apply Sat.seq (P := S.Foot (BaseFoot w.infos) (FileFoot w.infos) (BackupFoot w.infos) w) _ (fun _ h => h)
+    apply Sat.seq (P := PR) _ hPC
     rotate_left
-    · apply sat_forEach_any (P := S.Foot (BaseFoot w.infos) (FileFoot w.infos) (BackupFoot w.infos) w) _ w2 h2
+    · apply sat_forEach_any (P := PR) _ w2 h2
       intro x hx w' h'
       obtain ⟨hp, i, hm, hkind⟩ := hpl.dirs x ((sortBy_perm _ _).mem_iff.mp hx)
       obtain ⟨k, rfl, ht⟩ := hsome hp hm
@@ -559,34 +693,36 @@ theorem sat_rollback_foot {w : World} (hg : S.G w.fs)
         (Sim.Foot.of_dir hc (fun j hj => ⟨k, some i, ht, Or.inr (Or.inr ⟨i, rfl, hkind, hj⟩)⟩)
           ⟨k, some i, ht, Or.inl rfl⟩))
     intro e2 w3 h3
-    -- files are restored
-    apply Sat.seq (P := S.Foot (BaseFoot w.infos) (FileFoot w.infos) (BackupFoot w.infos) w) _ (fun _ h => h)
+    -- files are restored: the backup view is still the one Rollback started with
+    apply Sat.seq (P := PR) _ hPC
     rotate_left
-    · apply sat_forEach_any (P := S.Foot (BaseFoot w.infos) (FileFoot w.infos) (BackupFoot w.infos) w) _ w3 h3
+    · apply sat_forEach_any (P := PR) _ w3 h3
       intro x hx w' h'
       obtain ⟨hp, i, hm, hkind⟩ := hpl.files x ((sortBy_perm _ _).mem_iff.mp hx)
       obtain ⟨k, rfl, ht⟩ := hsome hp hm
+      have hbk : S.view .backup w'.fs = S.view .backup w.fs := funext (fun j => h'.backup j (fun h => h))
       exact (sat_restoreFileAct_chg h'.good ht.1 ht.2.1).mono (fun _ _ hc => h'.trans
-        (Sim.Foot.of_base hc (fun j hj => ⟨k, some i, ht, Or.inr (Or.inl ⟨i, rfl, hkind, hj⟩)⟩)
-          (fun j hj => ⟨k, some i, ht, Or.inr ⟨i, rfl, hkind, hj⟩⟩)))
+        (Sim.Foot.of_base hc (fun j hj => ⟨k, some i, ht, (FileReach.touches hkind (hbk ▸ hj)).touches⟩)
+          (fun j hj => ⟨k, some i, ht, FileReach.touches hkind (hbk ▸ hj)⟩)))
     intro e3 w4 h4
     -- no symlink is tracked
     have hnl : ∀ x, x ∈ pl.links → False := by
       intro x hx
       obtain ⟨_, i, hm, hkind⟩ := hpl.links x hx
       exact hnolink x i hm hkind
-    apply Sat.seq (P := S.Foot (BaseFoot w.infos) (FileFoot w.infos) (BackupFoot w.infos) w) _ (fun _ h => h)
+    apply Sat.seq (P := PR) _ hPC
     rotate_left
-    · apply sat_forEach_any (P := S.Foot (BaseFoot w.infos) (FileFoot w.infos) (BackupFoot w.infos) w) _ w4 h4
+    · apply sat_forEach_any (P := PR) _ w4 h4
       intro x hx w' h'
       exact absurd ((sortBy_perm _ _).mem_iff.mp hx) (hnl x)
     intro e4 w5 h5
+    have h5 : PC w5 := hPC w5 h5
     -- the clean-up of the backup
-    apply Sat.seq (P := S.Foot (BaseFoot w.infos) (FileFoot w.infos) (BackupFoot w.infos) w) _ (fun _ h => h)
+    apply Sat.seq (P := PC) _ (fun _ h => h)
     rotate_left
     · exact sat_removeBackupPaths_foot h5 (fun x hx => absurd hx (hnl x))
     intro e5 w6 h6
-    apply Sat.seq (P := S.Foot (BaseFoot w.infos) (FileFoot w.infos) (BackupFoot w.infos) w) _ (fun _ h => h)
+    apply Sat.seq (P := PC) _ (fun _ h => h)
     rotate_left
     · apply sat_removeBackupPaths_foot h6
       intro x hx
@@ -594,7 +730,7 @@ theorem sat_rollback_foot {w : World} (hg : S.G w.fs)
       obtain ⟨k, rfl, ht⟩ := hsome hp hm
       exact ⟨k, ht.1, ht.2.1, rfl, i, ht⟩
     intro e6 w7 h7
-    apply Sat.seq (P := S.Foot (BaseFoot w.infos) (FileFoot w.infos) (BackupFoot w.infos) w) _ (fun _ h => h)
+    apply Sat.seq (P := PC) _ (fun _ h => h)
     rotate_left
     · apply sat_removeBackupPaths_foot h7
       intro x hx
@@ -612,8 +748,8 @@ theorem sat_rollback_foot {w : World} (hg : S.G w.fs)
 /-- `j` is unrelated to the tracked key `k`: not at or below it and not one of its prefixes -/
 def Unrelated (j k : Key) : Prop := ¬ k <+: j ∧ ¬ j <+: k
 
-theorem Touches.related {k j : Key} {oi : Option Info} (h : Touches k oi j) : k <+: j ∨ j <+: k := by
-  rcases h with rfl | ⟨_, _, _, h⟩ | ⟨_, _, _, h⟩
+theorem Touches.related {vb : View} {k j : Key} {oi : Option Info} (h : Touches vb k oi j) : k <+: j ∨ j <+: k := by
+  rcases h with rfl | ⟨_, _, _, _, h⟩ | ⟨_, _, _, h⟩
   · exact Or.inl (List.prefix_refl _)
   · exact Or.inl h
   · exact Or.inr h
@@ -628,8 +764,8 @@ theorem rollback_frame (S : Sim cfg) {w : World} (hg : S.G w.fs)
     (hroot : (kp [], none) ∉ w.infos)
     (hnolink : ∀ p i, (p, some i) ∈ w.infos → i.kind ≠ .link) :
     S.G (rollback cfg w).1.fs ∧
-    (∀ j, ¬ BaseFoot w.infos j → S.view .base (rollback cfg w).1.fs j = S.view .base w.fs j) ∧
-    (∀ j, ¬ FileFoot w.infos j → (S.view .base w.fs).isFileAt j →
+    (∀ j, ¬ BaseFoot (S.view .backup w.fs) w.infos j → S.view .base (rollback cfg w).1.fs j = S.view .base w.fs j) ∧
+    (∀ j, ¬ FileFoot (S.view .backup w.fs) w.infos j → (S.view .base w.fs).isFileAt j →
       S.view .base (rollback cfg w).1.fs j = S.view .base w.fs j) ∧
     (∀ j, ¬ BackupFoot w.infos j → S.view .backup (rollback cfg w).1.fs j = S.view .backup w.fs j) := by
   have h := sat_rollback_foot (S := S) hg hkeys hroot hnolink
@@ -641,9 +777,9 @@ theorem rollback_frame_entries (S : Sim cfg) {w : World} (hg : S.G w.fs)
     (hroot : (kp [], none) ∉ w.infos)
     (hnolink : ∀ p i, (p, some i) ∈ w.infos → i.kind ≠ .link) :
     S.G (rollback cfg w).1.fs ∧
-    (∀ j, (∀ k oi, (kp k, oi) ∈ w.infos → PKey k → k ≠ [] → ¬ Touches k oi j) →
+    (∀ j, (∀ k oi, (kp k, oi) ∈ w.infos → PKey k → k ≠ [] → ¬ Touches (S.view .backup w.fs) k oi j) →
       S.view .base (rollback cfg w).1.fs j = S.view .base w.fs j) ∧
-    (∀ j, (∀ k oi, (kp k, oi) ∈ w.infos → PKey k → k ≠ [] → ¬ TouchesFile k oi j) →
+    (∀ j, (∀ k oi, (kp k, oi) ∈ w.infos → PKey k → k ≠ [] → ¬ TouchesFile (S.view .backup w.fs) k oi j) →
       (S.view .base w.fs).isFileAt j → S.view .base (rollback cfg w).1.fs j = S.view .base w.fs j) ∧
     (∀ j, (j = [] ∨ ∀ i, (kp j, some i) ∉ w.infos) →
       S.view .backup (rollback cfg w).1.fs j = S.view .backup w.fs j) := by
@@ -657,6 +793,23 @@ theorem rollback_frame_entries (S : Sim cfg) {w : World} (hg : S.G w.fs)
     rcases hj with rfl | hj
     · exact hne rfl
     · exact hj i hm
+
+/-- **C13, state level, backup copies intact.**  When every key tracked as a regular file still has
+a regular file as its backup copy (nobody tampered with the backup: this is part of the transaction
+invariant), the base changes at `j` only if `j` is tracked or is an ancestor of a key tracked as a
+directory, and a regular file of the base changes only if its own key is tracked.  In particular
+nothing below the path of a removed-and-replaced original file is touched. -/
+theorem rollback_frame_named (S : Sim cfg) {w : World} (hg : S.G w.fs)
+    (hkeys : ∀ p oi, (p, oi) ∈ w.infos → ∃ k, PKey k ∧ p = kp k)
+    (hroot : (kp [], none) ∉ w.infos)
+    (hnolink : ∀ p i, (p, some i) ∈ w.infos → i.kind ≠ .link)
+    (hcopies : CopiesIntact (S.view .backup w.fs) w.infos) :
+    (∀ j, ¬ NamedFoot w.infos j → S.view .base (rollback cfg w).1.fs j = S.view .base w.fs j) ∧
+    (∀ j, (∀ oi, ¬ TrackedKey w.infos j oi) → (S.view .base w.fs).isFileAt j →
+      S.view .base (rollback cfg w).1.fs j = S.view .base w.fs j) := by
+  obtain ⟨_, hb, hf, _⟩ := rollback_frame S hg hkeys hroot hnolink
+  exact ⟨fun j hj => hb j (fun h => hj (h.named hcopies)),
+    fun j hj hfile => hf j (fun h => by obtain ⟨oi, ht⟩ := h.tracked hcopies; exact hj oi ht) hfile⟩
 
 /-- the coarse form: in the base, a key unrelated to every tracked key other than the root is
 untouched; in the backup, a key that is not itself tracked is untouched.  (Without the exception
